@@ -40,6 +40,7 @@ class Tableau:
             self.z[n + i][i] = 1
         self.record: List[Form] = []
         self.random_measurements = 0
+        self.bad_lookbacks: List[tuple] = []   # (unit index, lookback, records so far): stim rejects a lookback before the first record
 
     # -- single qubit gates ------------------------------------------------------------------------------------
     def h(self, a):
@@ -163,7 +164,11 @@ def run_units(units: list, n_qubits: int, fresh: Callable[[], str], conditional_
             acc = ZERO
             for tg in targets:
                 assert isinstance(tg, tuple) and tg[0] == 'rec'
-                acc = fxor(acc, t.record[len(t.record) + int(tg[1])])
+                pos = len(t.record) + int(tg[1])
+                if not (0 <= pos < len(t.record)):
+                    t.bad_lookbacks.append((k, int(tg[1]), len(t.record)))
+                    continue
+                acc = fxor(acc, t.record[pos])
             (detectors if name == 'DETECTOR' else observables).append(acc)
             continue
         if name == 'M':
